@@ -297,6 +297,12 @@ class Machine:
                 value = get_sort(c.returns).coerce(value)
             except EngineError:
                 pass
+        elif c.returns and isinstance(value, VU) and value.sort.name != c.returns and not c.returns.startswith(("Tuple[", "py:", "List[", "Deque[", "Opt[")):
+            for h in getattr(self.world, "coerce_hooks", []):       # an opaque value returned where the contract declares its area model
+                alt = h(self, value, c.returns)
+                if alt is not None:
+                    value = alt
+                    break
         self.result = value
         # raising clauses: on a normal return none of the raise conditions held at entry
         for exc, cond in c.raises:
@@ -442,6 +448,29 @@ class Machine:
                     return alt
             return v
 
+    def coerce_elem(self, sort: Any, v: V) -> V:
+        """sort.coerce(v), with the area's coerce hooks as fallback (also component-wise for a tuple yielded into a record sort)."""
+        try:
+            return sort.coerce(v)
+        except EngineError:
+            hooks = getattr(self.world, "coerce_hooks", [])
+            for h in hooks:
+                alt = h(self, v, sort.name)
+                if alt is not None:
+                    return sort.coerce(alt)
+            if isinstance(v, VTuple) and isinstance(sort, RecSort) and len(v.items) == len(sort.fields):
+                items = []
+                for it, (_, fs) in zip(v.items, sort.fields):
+                    try:
+                        items.append(fs.coerce(it))
+                    except EngineError:
+                        alt = next((a for a in (h(self, it, fs.name) for h in hooks) if a is not None), None)
+                        if alt is None:
+                            raise
+                        items.append(fs.coerce(alt))
+                return sort.coerce(VTuple(items))
+            raise
+
     def unpack(self, v: V, n: int) -> list[V]:
         if isinstance(v, VOpt):
             if not self.spec and not self.ctx.branch(z3.Not(v.sort.is_none(v.term))):
@@ -496,7 +525,7 @@ class Machine:
         raise EngineError(f"subscript store on {obj!r} not modelled")
 
     def st_Return(self, s: ast.Return) -> None:
-        hint = self.contract.returns if isinstance(s.value, (ast.Dict, ast.List)) and self.contract.returns and self.contract.returns.startswith(("Dict[", "ODict[", "List[")) else None
+        hint = self.contract.returns if isinstance(s.value, (ast.Dict, ast.List)) and self.contract.returns and self.contract.returns.startswith(("Dict[", "ODict[", "List[", "Seq[")) else None
         raise ReturnSig(self.eval(s.value, hint) if s.value is not None else NONE)
 
     def st_Raise(self, s: ast.Raise) -> None:
@@ -918,6 +947,10 @@ class Machine:
                 return self.ctx.alloc("iter", revf(sv0)), True
             if isinstance(v, VOpt) and isinstance(v.sort.elem, SeqSort):  # narrowed by an earlier `is None` test
                 return self.ctx.alloc("iter", v.sort.elem.wrap(v.sort.val(v.term))), True
+            for h in getattr(self.world, "iter_hooks", []):     # area model of an opaque value that is a sequence (list / tuple held in a field)
+                r = h(self, v)
+                if r is not None:
+                    return self.ctx.alloc("iter", r), True
             raise EngineError(f"cannot iterate over {v!r}")
 
         if isinstance(it, VPy) and isinstance(it.obj, tuple) and it.obj[0] == "enumerate":
@@ -1560,6 +1593,10 @@ class Machine:
             c = self.ctx.cell(obj.addr)
             if c.kind in ("list", "deque"):
                 return c.value
+        for h in getattr(self.world, "iter_hooks", []):         # opaque value that an area models as a sequence
+            r = h(self, obj)
+            if r is not None:
+                return r
         return None
 
     def index(self, obj: V, idx: V) -> V:
@@ -1703,7 +1740,7 @@ class Machine:
         v = self.eval(e.value) if e.value is not None else NONE
         out = self.ctx.out
         assert out is not None
-        x = out.sort.elem.coerce(v)
+        x = self.coerce_elem(out.sort.elem, v)
         t = mk_snoc(out.term, x.term)
         self.ctx.bank.add(t, ("snoc", out.term, x.term))
         self.ctx.out = VSeq(t, out.sort)
